@@ -1,7 +1,9 @@
 (* Bridge: the __len__ methods regenerated from src/nfc/llcp/pdu.py on this run (Gen/PduLen.v) are pdu_len of the
    model (Model/Pdu.v), constructor by constructor.  C11's len_encode and C10's size accounting are about pdu_len. *)
 From Coq Require Import ZArith List Bool Lia ZifyBool.
-From NV Require Import Base.Bytes Model.Pdu Gen.PduLen.
+Ltac Zify.zify_post_hook ::= Z.to_euclidean_division_equations.
+From NV Require Import Base.Result Base.Bytes Base.PyPrims Base.Sweep Model.Pdu Gen.PduLen Gen.PduK Gen.CollectK
+  Proofs.PduBase Proofs.PduWin.
 Import ListNotations.
 Open Scope Z_scope.
 
@@ -46,3 +48,323 @@ Theorem bridge_len_rnr d s nr : gen_len_NumberedProtocolDataUnit = pdu_len (RNR 
 Proof. reflexivity. Qed.
 Theorem bridge_len_unknown pt d s payload : gen_len_UnknownProtocolDataUnit payload = pdu_len (Unknown pt d s payload).
 Proof. reflexivity. Qed.
+
+(* ===================================================================================================================
+   Round 2: the codec kernels regenerated from pdu.py (Gen/PduK.v) are the expressions / functions of Model/Pdu.v.
+   Reads of the kernels are py2coq's total pyidx; the lemmas carry the in-range facts as [rd .. = Some ..].
+   =================================================================================================================== *)
+Lemma pyidx_rd l k x : rd l k = Some x -> pyidx l k = x.
+Proof.
+  unfold rd, pyidx. destruct (k <? 0) eqn:E; [discriminate|]. intro H. rewrite E.
+  apply nth_error_nth with (d := 0) in H. exact H.
+Qed.
+
+Lemma pyslice_slice {A} (l : list A) a b : 0 <= a -> 0 <= b -> pyslice l a b = slice l a b.
+Proof.
+  intros Ha Hb. unfold pyslice, norm_idx. rewrite slice_eq by lia. pose proof (len_nonneg l) as Hn.
+  replace (a <? 0) with false by lia. replace (b <? 0) with false by lia.
+  destruct (Z.le_gt_cases (len l) a) as [H|H].
+  - rewrite (Z.min_r a) by lia. unfold len in *. rewrite !skipn_all2 by lia. rewrite !firstn_nil. reflexivity.
+  - rewrite (Z.min_l a) by lia. destruct (Z.le_gt_cases b (len l)) as [H2|H2].
+    + rewrite (Z.min_l b) by lia. reflexivity.
+    + rewrite (Z.min_r b) by lia. unfold len in *. rewrite !firstn_all2; [reflexivity | |]; rewrite skipn_length; lia.
+Qed.
+
+(* ---------------------------------------------------------------- encode_header / decode_header *)
+Theorem bridge_encode_header pt d s :
+  encode_header pt d s =
+  if gen_pdu_hdr_neg d s then EEncodeError else if gen_pdu_hdr_big d s then EEncodeError
+  else if in_range 0 65535 (gen_pdu_hdr_value d pt s) then EOk (gen_pdu_hdr_bytes d pt s) else ECrash StructErr.
+Proof. reflexivity. Qed.
+Theorem bridge_encode_nheader pt d s ns nr :
+  encode_nheader pt d s ns nr =
+  edo h <- encode_header pt d s;
+  if gen_pdu_seq_neg ns nr then EEncodeError else if gen_pdu_seq_big ns nr then EEncodeError
+  else EOk (h ++ gen_pdu_seq_bytes ns nr).
+Proof. reflexivity. Qed.
+Theorem bridge_decode_header data off size a b : rd data off = Some a -> rd data (off + 1) = Some b ->
+  decode_header data off size =
+  if gen_pdu_hdr_short size gen_pdu_hdr_size then Err DecodeError
+  else Ok (gen_pdu_hdr_field0 data off, gen_pdu_hdr_field1 data off).
+Proof.
+  intros Ha Hb. unfold decode_header, rdc, gen_pdu_hdr_field0, gen_pdu_hdr_field1. rewrite Ha, Hb.
+  rewrite (pyidx_rd _ _ _ Ha), (pyidx_rd _ _ _ Hb). reflexivity.
+Qed.
+Theorem bridge_decode_nheader data off size a b q :
+  rd data off = Some a -> rd data (off + 1) = Some b -> rd data (off + 2) = Some q ->
+  decode_nheader data off size =
+  if gen_pdu_nhdr_short size gen_pdu_nhdr_size then Err DecodeError
+  else Ok (gen_pdu_nhdr_field0 data off, gen_pdu_nhdr_field1 data off, gen_pdu_nhdr_field2 data off, gen_pdu_nhdr_field3 data off).
+Proof.
+  intros Ha Hb Hq. unfold decode_nheader, rdc, gen_pdu_nhdr_field0, gen_pdu_nhdr_field1, gen_pdu_nhdr_field2, gen_pdu_nhdr_field3.
+  rewrite Ha, Hb, Hq. rewrite (pyidx_rd _ _ _ Ha), (pyidx_rd _ _ _ Hb), (pyidx_rd _ _ _ Hq). reflexivity.
+Qed.
+
+(* ---------------------------------------------------------------- Parameter.encode *)
+Theorem bridge_penc_types :
+  gen_pdu_penc_u8_types = [gen_pdu_T_VERSION; gen_pdu_T_LTO; gen_pdu_T_RW; gen_pdu_T_OPT] /\
+  gen_pdu_penc_u16_types = [gen_pdu_T_MIUX; gen_pdu_T_WKS] /\
+  gen_pdu_penc_bytes_types = [gen_pdu_T_SN; gen_pdu_T_ECPK; gen_pdu_T_RN] /\
+  [gen_pdu_T_VERSION; gen_pdu_T_MIUX; gen_pdu_T_WKS; gen_pdu_T_LTO; gen_pdu_T_RW; gen_pdu_T_SN; gen_pdu_T_OPT;
+   gen_pdu_T_SDREQ; gen_pdu_T_SDRES; gen_pdu_T_ECPK; gen_pdu_T_RN] = [1; 2; 3; 4; 5; 6; 7; 8; 9; 10; 11].
+Proof. repeat split. Qed.
+Theorem bridge_param_encode t :
+  param_encode t =
+  match t with
+  | TVersion v => if in_range 0 255 v then EOk (gen_pdu_penc_u8 gen_pdu_T_VERSION v) else EEncodeError
+  | TMiux v => if in_range 0 65535 v then EOk (gen_pdu_penc_u16 gen_pdu_T_MIUX v) else EEncodeError
+  | TWks v => if in_range 0 65535 v then EOk (gen_pdu_penc_u16 gen_pdu_T_WKS v) else EEncodeError
+  | TLto v => if in_range 0 255 v then EOk (gen_pdu_penc_u8 gen_pdu_T_LTO v) else EEncodeError
+  | TRw v => if in_range 0 255 v then EOk (gen_pdu_penc_u8 gen_pdu_T_RW v) else EEncodeError
+  | TSn b => if gen_pdu_penc_bytes_long b then EEncodeError else EOk (gen_pdu_penc_bytes gen_pdu_T_SN b)
+  | TOpt v => if in_range 0 255 v then EOk (gen_pdu_penc_u8 gen_pdu_T_OPT v) else EEncodeError
+  | TSdreq tid sn => if gen_pdu_penc_sdreq_long sn then EEncodeError
+                     else if in_range 0 255 tid then EOk (gen_pdu_penc_sdreq gen_pdu_T_SDREQ tid sn) else EEncodeError
+  | TSdres tid sap => if in_range 0 255 tid && in_range 0 255 sap
+                      then EOk (gen_pdu_penc_sdres gen_pdu_T_SDRES tid sap) else EEncodeError
+  | TEcpk b => if gen_pdu_penc_bytes_long b then EEncodeError else EOk (gen_pdu_penc_bytes gen_pdu_T_ECPK b)
+  | TRn b => if gen_pdu_penc_bytes_long b then EEncodeError else EOk (gen_pdu_penc_bytes gen_pdu_T_RN b)
+  | TOther _ _ => EEncodeError
+  end.
+Proof.
+  destruct t; cbn [param_encode]; unfold packB, packH; try reflexivity.
+  - destruct (in_range 0 255 v); reflexivity.
+  - destruct (in_range 0 65535 v); reflexivity.
+  - destruct (in_range 0 65535 v); reflexivity.
+  - destruct (in_range 0 255 v); reflexivity.
+  - destruct (in_range 0 255 v); reflexivity.
+  - destruct (in_range 0 255 v); reflexivity.
+  - unfold gen_pdu_penc_sdreq_long. destruct (len sn >? 254); [reflexivity|]. destruct (in_range 0 255 tid); reflexivity.
+  - destruct (in_range 0 255 tid); destruct (in_range 0 255 sap); reflexivity.
+Qed.
+
+(* ---------------------------------------------------------------- Parameter.decode *)
+Lemma mask_sweep16 (m k : Z) :
+  sweep16 (fun x => Z.land x k =? (if negb (Z.land x m =? 0) then Z.land x k else x)) = true ->
+  forall x, 0 <= x < 65536 -> Z.land x k = if negb (Z.land x m =? 0) then Z.land x k else x.
+Proof. intros H x Hx. apply Z.eqb_eq. exact (sweep16_lift _ H x Hx). Qed.
+
+Lemma mask_sweep8 (m k : Z) :
+  forallb (fun x => Z.land x k =? (if negb (Z.land x m =? 0) then Z.land x k else x)) (zseq 0 256) = true ->
+  forall x, 0 <= x < 256 -> Z.land x k = if negb (Z.land x m =? 0) then Z.land x k else x.
+Proof. intros H x Hx. apply Z.eqb_eq. apply (sweep_lift _ 0 256 H x). cbn. lia. Qed.
+
+Theorem bridge_param_decode data off size T L : rd data off = Some T -> rd data (off + 1) = Some L ->
+  param_decode data off size =
+  if off + 2 + L >? len data then Err DecodeError
+  else if gen_pdu_pdec_exceeds L size then Err DecodeError
+  else do t <- tlv_interp T L (slice data (off + 2) (off + 2 + L)); Ok (L, t).
+Proof. intros Ha Hb. unfold param_decode. rewrite Ha, Hb. reflexivity. Qed.
+
+Theorem bridge_pdec_version L v :
+  tlv_interp gen_pdu_T_VERSION L [v] =
+  if gen_pdu_pdec_VERSION_badlen L then Err DecodeError else Ok (TVersion (gen_pdu_pdec_VERSION_raw [v])).
+Proof. reflexivity. Qed.
+Theorem bridge_pdec_lto L v :
+  tlv_interp gen_pdu_T_LTO L [v] =
+  if gen_pdu_pdec_LTO_badlen L then Err DecodeError else Ok (TLto (gen_pdu_pdec_LTO_raw [v])).
+Proof. reflexivity. Qed.
+Theorem bridge_pdec_wks L a b :
+  tlv_interp gen_pdu_T_WKS L [a; b] =
+  if gen_pdu_pdec_WKS_badlen L then Err DecodeError else Ok (TWks (gen_pdu_pdec_WKS_raw [a; b])).
+Proof. reflexivity. Qed.
+(* MIUX: the reserved-bit test and the mask are C10's kernels (Gen/CollectK.v, the same two source expressions) *)
+Theorem bridge_pdec_miux L a b : 0 <= a < 256 -> 0 <= b < 256 ->
+  tlv_interp gen_pdu_T_MIUX L [a; b] =
+  if gen_pdu_pdec_MIUX_badlen L then Err DecodeError
+  else Ok (TMiux (let V := gen_pdu_pdec_MIUX_raw [a; b] in
+                  if negb (gen_c10_miux_reserved V =? 0) then gen_c10_miux_masked V else V)).
+Proof.
+  intros Ha Hb. unfold tlv_interp, gen_pdu_T_MIUX, gen_pdu_pdec_MIUX_badlen, gen_pdu_pdec_MIUX_raw, gen_c10_miux_reserved, gen_c10_miux_masked.
+  cbn [Z.eqb Pos.eqb pyidx]. change (pyidx [a; b] 0) with a. change (pyidx [a; b] 1) with b. cbv zeta.
+  destruct (negb (L =? 2)); [reflexivity|]. f_equal. f_equal.
+  apply (mask_sweep16 63488 2047); [vm_compute; reflexivity | lia].
+Qed.
+Theorem bridge_pdec_rw L v : 0 <= v < 256 ->
+  tlv_interp gen_pdu_T_RW L [v] =
+  if gen_pdu_pdec_RW_badlen L then Err DecodeError
+  else Ok (TRw (let V := gen_pdu_pdec_RW_raw [v] in
+                if negb (gen_pdu_pdec_RW_reserved V =? 0) then gen_pdu_pdec_RW_masked V else V)).
+Proof.
+  intro Hv. unfold tlv_interp, gen_pdu_T_RW, gen_pdu_pdec_RW_badlen, gen_pdu_pdec_RW_raw, gen_pdu_pdec_RW_reserved, gen_pdu_pdec_RW_masked.
+  cbn [Z.eqb Pos.eqb]. change (pyidx [v] 0) with v. cbv zeta. destruct (negb (L =? 1)); [reflexivity|]. f_equal. f_equal.
+  apply (mask_sweep8 240 15); [vm_compute; reflexivity | lia].
+Qed.
+Theorem bridge_pdec_opt L v : 0 <= v < 256 ->
+  tlv_interp gen_pdu_T_OPT L [v] =
+  if gen_pdu_pdec_OPT_badlen L then Err DecodeError
+  else Ok (TOpt (let V := gen_pdu_pdec_OPT_raw [v] in
+                 if negb (gen_pdu_pdec_OPT_reserved V =? 0) then gen_pdu_pdec_OPT_masked V else V)).
+Proof.
+  intro Hv. unfold tlv_interp, gen_pdu_T_OPT, gen_pdu_pdec_OPT_badlen, gen_pdu_pdec_OPT_raw, gen_pdu_pdec_OPT_reserved, gen_pdu_pdec_OPT_masked.
+  cbn [Z.eqb Pos.eqb]. change (pyidx [v] 0) with v. cbv zeta. destruct (negb (L =? 1)); [reflexivity|]. f_equal. f_equal.
+  apply (mask_sweep8 248 7); [vm_compute; reflexivity | lia].
+Qed.
+Theorem bridge_pdec_sdreq L tid sn :
+  tlv_interp gen_pdu_T_SDREQ L (tid :: sn) = if gen_pdu_pdec_SDREQ_badlen L then Err DecodeError else Ok (TSdreq tid sn).
+Proof. reflexivity. Qed.
+Theorem bridge_pdec_sdres L a b :
+  tlv_interp gen_pdu_T_SDRES L [a; b] = if gen_pdu_pdec_SDRES_badlen L then Err DecodeError else Ok (TSdres a b).
+Proof. reflexivity. Qed.
+Theorem bridge_pdec_bytes L V :
+  tlv_interp gen_pdu_T_SN L V = Ok (TSn V) /\ tlv_interp gen_pdu_T_ECPK L V = Ok (TEcpk V) /\
+  tlv_interp gen_pdu_T_RN L V = Ok (TRn V).
+Proof. repeat split. Qed.
+
+(* the `while size >= 2` loop of the five parameter-carrying classes *)
+Theorem bridge_tlv_loop_step f step data off size st :
+  tlv_loop (S f) step data off size st =
+  if negb (gen_pdu_tlv_more size) then Ok st else
+  do (L, t) <- param_decode data off size;
+  tlv_loop f step data (gen_pdu_tlv_next_offset off L) (gen_pdu_tlv_next_size size L) (step st t).
+Proof.
+  rewrite tlv_loop_eq. unfold gen_pdu_tlv_more. replace (negb (size >=? 2)) with (size <? 2) by lia. reflexivity.
+Qed.
+
+(* ---------------------------------------------------------------- decode() *)
+Theorem bridge_decode_guard agf data off size :
+  decode_gen agf data off size =
+  if gen_pdu_dec_exceeds data off size then Err DecodeError
+  else if gen_pdu_dec_short size then Err DecodeError else decode_gen agf data off size.
+Proof.
+  unfold decode_gen, gen_pdu_dec_exceeds, gen_pdu_dec_short.
+  destruct (off + size >? len data); [reflexivity|]. destruct (size <? 2); reflexivity.
+Qed.
+Theorem bridge_decode_ptype data off a b : rd data off = Some a -> rd data (off + 1) = Some b ->
+  gen_pdu_dec_ptype data off = Z.land (Z.shiftr (a * 256 + b) 6) 15.
+Proof. intros Ha Hb. unfold gen_pdu_dec_ptype. rewrite (pyidx_rd _ _ _ Ha), (pyidx_rd _ _ _ Hb). reflexivity. Qed.
+(* pdu_type_map sends the PTYPE of each class to that class, and the PTYPEs are the ones the model dispatches on *)
+Theorem bridge_type_map :
+  gen_pdu_type_map =
+  [(gen_pdu_ptype_Symmetry, 0); (gen_pdu_ptype_ParameterExchange, 1); (gen_pdu_ptype_AggregatedFrame, 2);
+   (gen_pdu_ptype_UnnumberedInformation, 3); (gen_pdu_ptype_Connect, 4); (gen_pdu_ptype_Disconnect, 5);
+   (gen_pdu_ptype_ConnectionComplete, 6); (gen_pdu_ptype_DisconnectedMode, 7); (gen_pdu_ptype_FrameReject, 8);
+   (gen_pdu_ptype_ServiceNameLookup, 9); (gen_pdu_ptype_DataProtectionSetup, 10); (gen_pdu_ptype_Information, 11);
+   (gen_pdu_ptype_ReceiveReady, 12); (gen_pdu_ptype_ReceiveNotReady, 13)] /\
+  map fst gen_pdu_type_map = [0; 1; 2; 3; 4; 5; 6; 7; 8; 9; 10; 12; 13; 14].
+Proof. split; reflexivity. Qed.
+Theorem bridge_unknown_ptype data off a b : rd data off = Some a -> rd data (off + 1) = Some b ->
+  gen_pdu_unknown_ptype data off = Z.land (Z.lor (Z.shiftl a 2) (Z.shiftr b 6)) 15.
+Proof. intros Ha Hb. unfold gen_pdu_unknown_ptype. rewrite (pyidx_rd _ _ _ Ha), (pyidx_rd _ _ _ Hb). reflexivity. Qed.
+Theorem bridge_payloads data off size : 0 <= off -> 0 <= off + size ->
+  gen_pdu_ui_payload data off size = slice data (off + 2) (off + size) /\
+  gen_pdu_info_payload data off size = slice data (off + 3) (off + size) /\
+  gen_pdu_unknown_payload data off size = slice data (off + 2) (off + size).
+Proof.
+  intros Ho Hs. unfold gen_pdu_ui_payload, gen_pdu_info_payload, gen_pdu_unknown_payload.
+  rewrite !pyslice_slice by lia. repeat split.
+Qed.
+
+(* ---------------------------------------------------------------- AggregatedFrame.decode / .encode *)
+Theorem bridge_agf_step f data off size acc :
+  agf_loop (S f) data off size acc =
+  if negb (gen_pdu_agf_more size) then Ok acc else
+  if gen_pdu_agf_lenshort size then Err DecodeError else
+  match rd data off, rd data (off + 1) with
+  | Some _, Some _ =>
+      let n := gen_pdu_agf_len data off in
+      if gen_pdu_agf_exceeds n size then Err DecodeError else
+      do p <- decode_sub data (off + 2) n;
+      agf_loop f data (gen_pdu_agf_next_offset off n) (gen_pdu_agf_next_size size n) (acc ++ [p])
+  | _, _ => Err DecodeError
+  end.
+Proof.
+  rewrite agf_loop_eq. unfold gen_pdu_agf_more, gen_pdu_agf_lenshort, gen_pdu_agf_len.
+  replace (negb (size >? 0)) with (size <=? 0) by lia. destruct (size <=? 0); [reflexivity|].
+  destruct (size <? 2); [reflexivity|].
+  destruct (rd data off) as [h|] eqn:Eh; [|reflexivity]. destruct (rd data (off + 1)) as [l|] eqn:El; [|reflexivity].
+  rewrite (pyidx_rd _ _ _ Eh), (pyidx_rd _ _ _ El). reflexivity.
+Qed.
+(* the member: peek at the header under the guard `pdu_size >= 2`, then decode(data, offset + 2, pdu_size) *)
+Theorem bridge_agf_member data moff n : 0 <= moff ->
+  decode_sub data moff n =
+  if gen_pdu_agf_guard n && gen_pdu_agf_is_agf data moff then Err DecodeError else decode data moff n.
+Proof.
+  intro Ho. unfold decode_sub, decode, decode_gen, gen_pdu_agf_guard, gen_pdu_agf_is_agf.
+  destruct (moff + n >? len data) eqn:E1.
+  { destruct ((n >=? 2) && _); reflexivity. }
+  destruct (n <? 2) eqn:E2.
+  { replace (n >=? 2) with false by lia. reflexivity. }
+  replace (n >=? 2) with true by lia. cbn [andb].
+  destruct (rd data moff) as [a|] eqn:Ea; [|rewrite rd_spec in Ea by lia; discriminate].
+  destruct (rd data (moff + 1)) as [b|] eqn:Eb; [|rewrite rd_spec in Eb by lia; discriminate].
+  unfold rdc. rewrite Ea, Eb. cbn [bind]. rewrite (pyidx_rd _ _ _ Ea), (pyidx_rd _ _ _ Eb).
+  destruct (Z.land (Z.shiftr (a * 256 + b) 6) 15 =? 2) eqn:E; [|reflexivity].
+  apply Z.eqb_eq in E. rewrite E. reflexivity.
+Qed.
+Theorem bridge_agf_tests n size off :
+  gen_pdu_agf_exceeds n size = (n >? size - 2) /\ gen_pdu_agf_next_offset off n = off + 2 + n /\
+  gen_pdu_agf_next_size size n = size - 2 - n /\ (forall d s, gen_pdu_agf_nonzero d s = negb (d =? 0) || negb (s =? 0)).
+Proof. repeat split. Qed.
+Theorem bridge_agf_frame e : 0 <= len e <= 65535 -> agf_body [e] = EOk (gen_pdu_agf_frame e).
+Proof.
+  intro H. cbn [agf_body]. unfold in_range. replace ((0 <=? len e) && (len e <=? 65535)) with true by lia.
+  cbn [ebind]. unfold gen_pdu_agf_frame, pack_be16. rewrite app_nil_r. reflexivity.
+Qed.
+
+(* ---------------------------------------------------------------- address / size tests of the other classes *)
+Theorem bridge_class_tests d s size :
+  gen_pdu_symm_badsap d s = negb (d =? 0) || negb (s =? 0) /\ gen_pdu_symm_payload size = (size >=? 3) /\
+  gen_pdu_pax_badsap d s = negb (d =? 0) || negb (s =? 0) /\ gen_pdu_snl_badsap d s = negb (d =? 1) || negb (s =? 1) /\
+  gen_pdu_dps_badsap d s = negb (d =? 0) || negb (s =? 0) /\
+  gen_pdu_symm_enc_badsap d s = negb (d =? 0) || negb (s =? 0) /\ gen_pdu_pax_enc_badsap d s = negb (d =? 0) || negb (s =? 0) /\
+  gen_pdu_dps_enc_badsap d s = negb (d =? 0) || negb (s =? 0) /\ gen_pdu_agf_enc_nonzero d s = negb (d =? 0) || negb (s =? 0) /\
+  gen_pdu_dm_badsize size = negb (size =? 3) /\ gen_pdu_frmr_badsize size = negb (size =? 6).
+Proof. repeat split. Qed.
+Theorem bridge_symm data off size :
+  dec_symm data off size =
+  do (dsap, ssap) <- decode_header data off size;
+  if gen_pdu_symm_badsap dsap ssap then Err DecodeError else
+  if gen_pdu_symm_payload size then Err DecodeError else Ok (Symm dsap ssap).
+Proof. reflexivity. Qed.
+
+(* ---------------------------------------------------------------- Connect / ConnectionComplete *)
+Theorem bridge_connect_encode d s miu rw sn :
+  encode (Connect d s miu rw sn) =
+  edo h <- encode_header gen_pdu_ptype_Connect d s;
+  edo a <- (if gen_pdu_connect_enc_miux miu then param_encode (TMiux (gen_pdu_connect_enc_miux_arg miu)) else EOk []);
+  edo b <- (if gen_pdu_connect_enc_rw rw then param_encode (TRw rw) else EOk []);
+  edo c <- (if gen_pdu_connect_enc_sn sn then param_encode (TSn (match sn with Some x => x | None => [] end)) else EOk []);
+  EOk (h ++ a ++ b ++ c).
+Proof.
+  cbn [encode]. unfold gen_pdu_connect_enc_miux, gen_pdu_connect_enc_rw, gen_pdu_connect_enc_sn, gen_pdu_connect_enc_miux_arg, gen_pdu_ptype_Connect.
+  replace (negb (miu =? 0) && (miu >? 128)) with (miu >? 128) by lia. cbn [andb].
+  destruct sn as [[|x l]|]; reflexivity.
+Qed.
+Theorem bridge_cc_encode d s miu rw :
+  encode (CC d s miu rw) =
+  edo h <- encode_header gen_pdu_ptype_ConnectionComplete d s;
+  edo a <- (if gen_pdu_cc_enc_miux miu then param_encode (TMiux (gen_pdu_cc_enc_miux_arg miu)) else EOk []);
+  edo b <- (if gen_pdu_cc_enc_rw rw then param_encode (TRw rw) else EOk []);
+  EOk (h ++ a ++ b).
+Proof.
+  cbn [encode]. unfold gen_pdu_cc_enc_miux, gen_pdu_cc_enc_rw, gen_pdu_cc_enc_miux_arg, gen_pdu_ptype_ConnectionComplete.
+  replace (negb (miu =? 0) && (miu >? 128)) with (miu >? 128) by lia. reflexivity.
+Qed.
+Theorem bridge_connect_decode data off size d s miu rw sn x :
+  dec_connect data off size =
+    (do (dsap, ssap) <- decode_header data off size;
+     tlv_loop (Z.to_nat (size - 2)) connect_step data (off + 2) (size - 2)
+       (Connect dsap ssap gen_pdu_connect_default_miu gen_pdu_connect_default_rw None)) /\
+  dec_cc data off size =
+    (do (dsap, ssap) <- decode_header data off size;
+     tlv_loop (Z.to_nat (size - 2)) cc_step data (off + 2) (size - 2)
+       (CC dsap ssap gen_pdu_cc_default_miu gen_pdu_cc_default_rw)) /\
+  connect_step (Connect d s miu rw sn) (TMiux x) = Connect d s (gen_pdu_connect_dec_miu x) rw sn /\
+  cc_step (CC d s miu rw) (TMiux x) = CC d s (gen_pdu_cc_dec_miu x) rw.
+Proof. repeat split. Qed.
+
+(* ---------------------------------------------------------------- FrameReject *)
+Theorem bridge_frmr_encode d s fl pt ns nr vs vr vsa vra :
+  encode (Frmr d s fl pt ns nr vs vr vsa vra) =
+  edo h <- encode_header gen_pdu_ptype_FrameReject d s;
+  if forallb (in_range 0 255) (gen_pdu_frmr_bytes fl pt ns nr vs vr vsa vra)
+  then EOk (h ++ gen_pdu_frmr_bytes fl pt ns nr vs vr vsa vra) else ECrash StructErr.
+Proof.
+  cbn [encode]. unfold gen_pdu_ptype_FrameReject, gen_pdu_frmr_bytes, pack_u8, rawB. cbn [app forallb].
+  destruct (encode_header 8 d s); cbn [ebind]; try reflexivity.
+  destruct (in_range 0 255 (Z.lor (Z.shiftl fl 4) pt)); destruct (in_range 0 255 (Z.lor (Z.shiftl ns 4) nr));
+    destruct (in_range 0 255 (Z.lor (Z.shiftl vs 4) vr)); destruct (in_range 0 255 (Z.lor (Z.shiftl vsa 4) vra)); reflexivity.
+Qed.
+Theorem bridge_frmr_nibbles b : gen_pdu_frmr_hi b = Z.shiftr b 4 /\ gen_pdu_frmr_lo b = Z.land b 15.
+Proof. split; reflexivity. Qed.
